@@ -57,6 +57,9 @@ def batches(tier):
             {"name": "fock", "runs": 1200, "weight": 5, "seed_offset": 200000},
             {"name": "gaussian-crash", "runs": 1800, "weight": 1, "seed_offset": 300000},
             {"name": "fock-crash", "runs": 300, "weight": 2, "seed_offset": 400000},
+            {"name": "gaussian-ent", "runs": 1500, "weight": 2, "seed_offset": 500000},
+            {"name": "bosonic-ent", "runs": 900, "weight": 2, "seed_offset": 600000},
+            {"name": "fock-ent", "runs": 200, "weight": 3, "seed_offset": 700000},
         ]
     return [
         {"name": "gaussian", "runs": 60000, "weight": 3},
@@ -65,13 +68,66 @@ def batches(tier):
         {"name": "gaussian-crash", "runs": 20000, "weight": 1, "seed_offset": 300000},
         {"name": "bosonic-crash", "runs": 8000, "weight": 1, "seed_offset": 350000},
         {"name": "fock-crash", "runs": 2500, "weight": 3, "seed_offset": 400000},
+        {"name": "gaussian-ent", "runs": 30000, "weight": 2, "seed_offset": 500000},
+        {"name": "bosonic-ent", "runs": 15000, "weight": 2, "seed_offset": 600000},
+        {"name": "fock-ent", "runs": 4000, "weight": 4, "seed_offset": 700000},
     ]
 
 
 MAX_EVER = 6
 
 
+def generate_ent(seed, tier, batch):
+    """entangled / squeezed / mixed states (no amplitude model): what is checked is the mode set after every run and, at the
+    add_mode / del_mode seam, that creating or deleting a mode leaves the state of all *other* modes exactly as it was"""
+    r = random.Random("c08e:%d" % seed)
+    backend = batch.split("-")[0]
+    max_alive = 3 if backend == "fock" else 5
+    opts = {"cutoff_dim": 5, "pure": r.random() < 0.6} if backend == "fock" else {}
+    sc = 0.25 if backend == "fock" else 1.0
+    nseg = r.choice([1, 2, 3]) if backend != "bosonic" else 1
+    n0 = r.randint(1, min(3, max_alive))
+    alive, nxt = list(range(n0)), n0
+    segs = []
+    for s_ in range(nseg):
+        ops = []
+        for _ in range(r.randint(2, 9)):
+            x = r.random()
+            if x < 0.14 and nxt < MAX_EVER and len(alive) < max_alive:
+                k_new = min(r.choice([1, 1, 2]), MAX_EVER - nxt, max_alive - len(alive))
+                ops.append({"op": "New", "n": k_new, "m": list(range(nxt, nxt + k_new))})
+                alive += list(range(nxt, nxt + k_new))
+                nxt += k_new
+            elif x < 0.26 and len(alive) > 1:
+                m = r.choice(alive)
+                ops.append({"op": "Del", "m": [m]})
+                alive.remove(m)
+            elif x < 0.45:
+                ops.append({"op": "Sgate", "p": [round(r.uniform(-0.6, 0.6) * sc, 3), round(r.uniform(0, 6.2), 3)], "m": [r.choice(alive)]})
+            elif x < 0.55:
+                ops.append({"op": "Dgate", "p": [round(r.uniform(0, 0.8) * sc, 3), round(r.uniform(0, 6.2), 3)], "m": [r.choice(alive)]})
+            elif x < 0.78 and len(alive) > 1:
+                g = r.choice(["BSgate", "BSgate", "S2gate"])
+                ops.append({"op": g, "p": [round(r.uniform(0.2, 1.4), 3) if g == "BSgate" else round(r.uniform(-0.5, 0.5) * sc, 3), round(r.uniform(0.3, 6.0), 3)],
+                            "m": r.sample(alive, 2)})
+            elif x < 0.84 and backend != "fock":
+                ops.append({"op": "Thermal", "p": [round(r.uniform(0.1, 0.8), 3)], "m": [r.choice(alive)]})
+            elif x < 0.90:
+                ops.append({"op": "LossChannel", "p": [round(r.uniform(0.3, 1), 3)], "m": [r.choice(alive)]})
+            elif x < 0.95 and backend == "bosonic":
+                ops.append({"op": "MSgate", "p": [round(r.uniform(-0.3, 0.3), 3), round(r.uniform(0, 3), 3), round(r.uniform(1.0, 2.0), 3), round(r.uniform(0.9, 1.0), 3), r.random() < 0.3],
+                            "m": [r.choice(alive)]})
+            else:
+                ops.append({"op": "MeasureHomodyne", "p": [round(r.uniform(0, 3), 3)], "m": [r.choice(alive)]})
+        segs.append({"ops": ops})
+    segs[0]["n"] = n0
+    return {"backend": backend, "opts": opts, "segs": segs, "call": r.choice(["list", "seq"]), "invalid": [], "reset_between": False, "subset_state": False,
+            "tape": seed, "ent": True}
+
+
 def generate(seed, tier, batch):
+    if batch.endswith("-ent"):
+        return generate_ent(seed, tier, batch)
     r = random.Random("c08:%d" % seed)
     backend = batch.split("-")[0]
     crash = batch.endswith("-crash")
@@ -224,11 +280,117 @@ def amplitudes(st, hbar):
     return out
 
 
+def reduced_obs(be, labels):
+    """state of the simulator restricted to the modes with the given labels, as comparable arrays (uses only the public state API)"""
+    st = be.state()
+    names = [st.mode_names[i] for i in range(st.num_modes)]
+    pos = [names.index("q[%d]" % l_) for l_ in labels]
+    cls = type(st).__name__
+    if cls == "BaseGaussianState":
+        n_ = st.num_modes
+        idx = pos + [p_ + n_ for p_ in pos]
+        return {"means": np.asarray(st.means())[idx], "cov": np.asarray(st.cov())[np.ix_(idx, idx)]}
+    if cls == "BaseBosonicState":
+        idx = [i_ for p_ in pos for i_ in (2 * p_, 2 * p_ + 1)]
+        return {"weights": np.array(st.weights()), "means": np.asarray(st.means())[:, idx], "covs": np.asarray(st.covs())[:, idx][:, :, idx]}
+    return {"dm": np.asarray(st.reduced_dm(pos))} if pos else {"dm": np.array(1.0)}
+
+
+def execute_ent(script, w):
+    import strawberryfields as sf
+
+    backend = script["backend"]
+    feats = ["backend=" + backend, "entangled-states"]
+    outcomes = SeededOutcomes(script["tape"], w)
+    segs = script["segs"]
+    tol = 1e-9 if backend != "fock" else 1e-8
+
+    def on_call(phase, be, name, a, k, out):
+        if name not in ("add_mode", "del_mode"):
+            return
+        if phase == "pre":
+            before = [int(x) for x in be.get_modes()]
+            gone = []
+            if name == "del_mode":
+                mm = k.get("modes", a[0] if a else [])
+                gone = [int(x) for x in (mm if isinstance(mm, (list, tuple, np.ndarray)) else [mm])]
+            keep = [m_ for m_ in before if m_ not in gone]
+            be._sfsim_pre = (before, keep, reduced_obs(be, keep) if keep else None)
+            return
+        before, keep, pre = be._sfsim_pre
+        after = [int(x) for x in be.get_modes()]
+        if name == "add_mode":
+            n_new = int(k.get("n", a[0] if a else 1))
+            if after[: len(before)] != before or len(after) != len(before) + n_new or (before and min(after[len(before):]) <= max(before)):
+                w.violation("mode-set", "add_mode", {"before": before, "after": after, "n": n_new}, feats)
+                raise Violation("mode-set", "add_mode", "stop")
+        else:
+            if after != keep:
+                w.violation("mode-set", "del_mode", {"before": before, "after": after, "deleted": [m_ for m_ in before if m_ not in keep]}, feats)
+                raise Violation("mode-set", "del_mode", "stop")
+        if keep:
+            post = reduced_obs(be, keep)
+            for key in pre:
+                x, y = np.asarray(pre[key]), np.asarray(post[key])
+                if x.shape != y.shape or (x.size and float(np.max(np.abs(x - y))) > tol * max(1.0, float(np.max(np.abs(x))))):
+                    w.violation("own-data", name + "-changes-other-modes", {"modes_kept": keep, "what": key,
+                                                                          "max_abs_diff": None if x.shape != y.shape else float(np.max(np.abs(x - y)))}, feats)
+                    raise Violation("own-data", name + "-changes-other-modes", "stop")
+            w.probes["register_op_leaves_other_modes_untouched_checked"] += 1
+
+    simenv = SimEnv(w, outcomes, FaultPlan(), on_call=on_call)
+    with simenv:
+        alive = list(range(segs[0]["n"]))
+        alive_after = []
+        for sg in segs:
+            for o in sg["ops"]:
+                if o["op"] == "New":
+                    alive += o["m"]
+                elif o["op"] == "Del":
+                    alive = [m_ for m_ in alive if m_ not in o["m"]]
+            alive_after.append(sorted(alive))
+        progs, parent = [], None
+        for i, sg in enumerate(segs):
+            p = build_program(sg, parent=parent, name="seg%d" % i)
+            progs.append(p)
+            parent = p
+        eng = simenv.engine(backend, script["opts"])
+
+        def check(res, upto):
+            want = alive_after[upto]
+            got = [int(x) for x in eng.backend.get_modes()]
+            reg = [r_.ind for r_ in progs[upto].register]
+            st = res.state
+            names = [st.mode_names[i] for i in range(st.num_modes)]
+            if got != want or reg != want or st.num_modes != len(want) or names != ["q[%d]" % i for i in want]:
+                w.violation("mode-set", "after-run", {"backend.get_modes": got, "Program.register": reg, "state.mode_names": names, "want": want, "segment": upto}, feats)
+                return False
+            w.states.add(hashlib.sha256(json.dumps([backend, want]).encode()).hexdigest()[:16])
+            return True
+
+        try:
+            if script["call"] == "list":
+                w.step("run_list", n=len(progs))
+                if not check(eng.run(progs), len(progs) - 1):
+                    return
+            else:
+                for i, p in enumerate(progs):
+                    w.step("run", prog=p.name)
+                    if not check(eng.run(p), i):
+                        return
+        except Violation:
+            return
+        if any(o["op"] in ("New", "Del") for sg in segs for o in sg["ops"]):
+            w.nontrivial.add(hashlib.sha256(json.dumps([backend, script["opts"], segs, script["call"]], sort_keys=True).encode()).hexdigest()[:16])
+
+
 def execute(script, w):
     import strawberryfields as sf
     from strawberryfields import ops as sfops
     from strawberryfields.program_utils import RegRefError, CircuitError
 
+    if script.get("ent"):
+        return execute_ent(script, w)
     backend = script["backend"]
     feats = ["backend=" + backend]
     tol = 3e-3 if backend == "fock" else 1e-7
